@@ -3,9 +3,8 @@
 //verif:dir p2p/net/swarm
 //verif:hook p2p/net/swarm dialLimiter.shouldConsumeFd
 //verif:shard VerifC05aLimiterHistory 12
-//verif:obligation C05.a dial limiter on every history of 3 (thorough 4) dial jobs for 2 peers (symbolic fd consumption, fd limit and per-peer limit in 1..2) that are finished or cancelled in every order: at every quiescent point the fd counter equals the number of running fd-consuming dials and never exceeds the fd limit, a peer's counter equals its running dials plus its jobs queued for an fd token and its running dials never exceed the per-peer limit; every job that was not cancelled is dialed exactly once and answered exactly once; once every job has finished no token, counter or waiter remains
+//verif:obligation C05.a dial limiter on every history of 3 (thorough 4) dial jobs for 2 peers (symbolic fd consumption, fd limit and per-peer limit in 1..2) that are finished or cancelled in every order, optionally after the worker of one peer has exited (clearAllPeerDials) with dials still in flight: at every quiescent point the fd counter equals the number of running fd-consuming dials and never exceeds the fd limit, a peer's counter equals its running dials plus its jobs queued for an fd token and its running dials never exceed the per-peer limit; every job that was not cancelled is dialed exactly once and answered exactly once; once every job has finished no token, counter or waiter remains
 //verif:obligation C05.b dial queue: Add keeps the queue sorted by delay and the multiset of entries, UpdateOrAdd leaves an address exactly once with its new delay, NextBatch returns exactly the entries of minimal delay and removes them (queues of <= 4 entries, symbolic delays)
-//verif:obligation C05.e dialSync: concurrent callers for one peer share one worker (spawned once); a caller whose context is cancelled returns promptly with its context's error while the request context handed to the worker for it - also when it asked for a direct connection - stays alive, so the shared attempt is not cancelled for the others; the request channel is closed and the entry deleted exactly when the last caller has returned, never before; a later caller starts a fresh worker
 //verif:bound 3 (4) jobs, limits 1..2; <= 4 queue entries; 2 callers; cooperative schedule (goroutines switch at blocking points), timers fire only when idle
 //verif:stub dialFunc = harness stub blocking until released; shouldConsumeFd hooked to a per-job symbolic flag; addresses are atoms; the dial worker is a harness stub in C05.e
 //verif:outside the worker loop's pacing and result dispatch (planned C05.f), completion orders under real preemption, back-off and black-hole filtering, ranking delays
@@ -109,6 +108,20 @@ func VerifC05aLimiterHistory() {
 		}
 		settle()
 		check("after-add")
+	}
+	if vBool() {
+		// every caller for peerA has gone: its worker cancels the shared attempt and exits while dials may
+		// still be inside a transport
+		for i := 0; i < n; i++ {
+			if vC05peers[i] == "peerA" && !jobs[i].canceled {
+				jobs[i].cancel()
+				jobs[i].canceled = true
+			}
+		}
+		dl.clearAllPeerDials("peerA")
+		settle()
+		check("after-worker-exit")
+		vCover("worker-exited-with-dials-in-flight")
 	}
 	orders := [][]int{{0, 1, 2}, {0, 2, 1}, {1, 0, 2}, {1, 2, 0}, {2, 0, 1}, {2, 1, 0}}
 	order := append([]int{}, orders[perm%6]...)
@@ -216,63 +229,4 @@ func VerifC05bDialQueue() {
 		}
 		vAssert(len(b)+dq.Len() == n && sorted(), "nothing is lost and the rest stays sorted")
 	}
-}
-
-// ---- C05.e ----
-
-func VerifC05eDialSync() {
-	var reqs []dialRequest
-	workers, closedSeen := 0, 0
-	ds := newDialSync(func(p peer.ID, reqch <-chan dialRequest) {
-		workers++
-		for r := range reqch {
-			reqs = append(reqs, r)
-		}
-		closedSeen++
-	})
-	forceDirect := vBool()
-	ctxA, cancelA := context.WithCancel(context.Background())
-	if forceDirect {
-		ctxA = network.WithForceDirectDial(ctxA, "verif")
-		vCover("force-direct-caller")
-	}
-	var connA, connB *Conn
-	var errA, errB error
-	doneA, doneB := make(chan struct{}), make(chan struct{})
-	go func() { connA, errA = ds.Dial(ctxA, "peerA"); close(doneA) }()
-	wait := func(cond func() bool) {
-		for i := 0; i < 300 && !cond(); i++ {
-			vYield()
-		}
-	}
-	wait(func() bool { return len(reqs) == 1 })
-	go func() { connB, errB = ds.Dial(context.Background(), "peerA"); close(doneB) }()
-	wait(func() bool { return len(reqs) == 2 })
-	vAssert(workers == 1 && len(reqs) == 2, "concurrent callers share one worker")
-	if forceDirect {
-		fd, _ := network.GetForceDirectDial(reqs[0].ctx)
-		vAssert(fd, "the caller's demand for a direct connection reaches the worker")
-	}
-	cancelA() // the first caller gives up
-	<-doneA
-	vAssert(connA == nil && errA == context.Canceled, "a cancelled caller is released promptly with its context's error")
-	vAssert(reqs[0].ctx.Err() == nil && reqs[1].ctx.Err() == nil, "cancelling one caller does not cancel the shared attempt")
-	vAssert(closedSeen == 0 && len(ds.dials) == 1, "the worker stays while another caller waits")
-	good := &Conn{}
-	reqs[1].resch <- dialResponse{conn: good}
-	<-doneB
-	vAssert(connB == good && errB == nil, "the other caller gets the connection")
-	wait(func() bool { return closedSeen == 1 })
-	vAssert(closedSeen == 1 && len(ds.dials) == 0, "when the last caller returns the request channel is closed and the entry removed")
-	vAssert(reqs[1].ctx.Err() != nil, "the shared dial context is cancelled once nobody waits")
-	// a later caller starts afresh
-	done3 := make(chan struct{})
-	ctx3, cancel3 := context.WithCancel(context.Background())
-	go func() { ds.Dial(ctx3, "peerA"); close(done3) }()
-	wait(func() bool { return len(reqs) == 3 })
-	vAssert(workers == 2, "a later caller gets a fresh worker")
-	cancel3()
-	<-done3
-	wait(func() bool { return closedSeen == 2 })
-	vAssert(closedSeen == 2 && len(ds.dials) == 0, "no worker or entry remains once all callers have returned")
 }
